@@ -3,8 +3,9 @@
 SPEC = dict(
     harness=['h_pid.c'],
     # the default (double) build runs the full harness; the other two real widths run the compact type-generic companion h_pid_w.c
-    configs=lambda tier: [dict(name='f64'), dict(name='f32', real=4, harness=['h_pid_w.c']), dict(name='f80', real=16, harness=['h_pid_w.c'])],
-    parallel_configs=3,
+    configs=lambda tier: [dict(name='f64'), dict(name='f32', real=4, harness=['h_pid_w.c']), dict(name='f80', real=16, harness=['h_pid_w.c']),
+                          dict(name='cxx', harness=['h_cxxw.c', 'h_cxxw_shim.cc'], hflags=['-DVF_CXXW=12'], nworkers=4)],
+    parallel_configs=4,
     level='exploration',
     rule='every case is one history of 1..2000 (set-point, feedback) pairs fed to the real controller code with random switches between '
          'the run/pos/inc entry points, a_*_zero calls in mid-history (after which a freshly initialised twin controller is run alongside '
@@ -27,7 +28,7 @@ SPEC = dict(
          'the step: out=outmax, out=outmin, sum>=summax, sum<=summin) combinations in which at least one step was judged - NOT the number of '
          'steps (evaluations).',
     exhaustive={'quick': None, 'thorough': None},
-    require=['w-out-within-limits', 'w-state-finite', 'w-return-eq-out-field', 'w-limits-untouched', 'w-gains-untouched', 'w-cached-fields-bitwise', 'w-integrator-clamp-clauses',
+    require=['a_pid::pos', 'a_pid::inc', 'a_pid::run', 'a_pid_neuro::inc', 'a_pid_fuzzy::pos', 'a_pid_fuzzy::set_kpid', 'w-out-within-limits', 'w-state-finite', 'w-return-eq-out-field', 'w-limits-untouched', 'w-gains-untouched', 'w-cached-fields-bitwise', 'w-integrator-clamp-clauses',
              'w-equation-exact', 'w-equation-onestep', 'w-pos-eq-inc-while-no-limit-active', 'w-closed-form-while-no-limit-active', 'w-seen-first-limit-activation-in-pos-inc-pair',
              'w-init-on-garbage', 'w-zero-state-fields', 'w-zero-mid-history', 'w-fuzzy-scratch-layout', 'w-fuzzy-configuration-untouched', 'w-fuzzy-table-lookup-gains-exact',
              'w-fuzzy-gains-weighted-mean', 'w-fuzzy-threshold-lone-set', 'w-seen-fuzzy-no-set-fires', 'w-neuro-configuration-untouched-ec-bitwise', 'w-neuro-run-passes-setpoint-keeps-weights',
